@@ -1,6 +1,7 @@
 package main
 
 import (
+	"bytes"
 	"fmt"
 	"math/rand"
 	"sync/atomic"
@@ -51,7 +52,7 @@ type readRes struct {
 // readAt opens a reader of ch at (id, off) and reads up to n bytes.  A read that makes no
 // progress for readStallTime is abandoned (stalled); the caller never turns a stall into a verdict
 // by itself.
-func readAt(ch syncer.Channel, id string, off int64, n int64) readRes {
+func readAt(ch syncer.Channel, id string, off int64, n int64, stall time.Duration) readRes {
 	rd, err := ch.NewReader(syncer.Offset{RunId: id, Offset: off})
 	if err != nil {
 		return readRes{openErr: err}
@@ -88,7 +89,7 @@ func readAt(ch syncer.Channel, id string, off int64, n int64) readRes {
 		case <-tick.C:
 			if g := got.Load(); g != last {
 				last, lastChange = g, time.Now()
-			} else if time.Since(lastChange) > readStallTime {
+			} else if time.Since(lastChange) > stall {
 				res.stalled = true
 				finished = true
 			}
@@ -118,18 +119,91 @@ type checkStats struct {
 	refusedLog      int
 	resumedReads    int
 	spotReads       int
+	transientDropped int
+}
+
+// world is what the harness knows about the histories of a case: every replication id used, the
+// snapshots (offset,size) that exist anywhere under each id and the lowest log offset ever fed under it.
+// All data of one id are pieces of one PRF history, so whatever a cache declares under an id must lie
+// inside these.
+type snapRef struct{ Left, Size int64 }
+
+type world struct {
+	ids     []string
+	snaps   map[string][]snapRef
+	minLeft map[string]int64
+}
+
+func newWorld(ids []string, hs ...hist) *world {
+	w := &world{ids: ids, snaps: map[string][]snapRef{}, minLeft: map[string]int64{}}
+	for _, h := range hs {
+		if h.ID == "" {
+			continue
+		}
+		if h.RdbSize > 0 {
+			w.snaps[h.ID] = append(w.snaps[h.ID], snapRef{h.RdbLeft, h.RdbSize})
+		}
+		if m, ok := w.minLeft[h.ID]; !ok || h.LogLeft < m {
+			w.minLeft[h.ID] = h.LogLeft
+		}
+	}
+	return w
+}
+
+func (w *world) hasSnap(id string, left, size int64) bool {
+	for _, x := range w.snaps[id] {
+		if x.Left == left && x.Size == size {
+			return true
+		}
+	}
+	return false
+}
+
+// metaFindings: what can be judged from the declared state alone, at any instant.
+func (w *world) metaFindings(s chanState, ctx string) []finding {
+	var out []finding
+	if s.ID == "" {
+		return nil
+	}
+	if s.RdbLeft >= 0 && s.RdbSize >= 0 && !w.hasSnap(s.ID, s.RdbLeft, s.RdbSize) {
+		out = append(out, finding{Sig: "snapshot-offset-not-leaders", What: fmt.Sprintf(
+			"follower offers a snapshot (offset %d, size %d) under id %.8s, but no snapshot of that id exists at that offset (the id's snapshots: %v)",
+			s.RdbLeft, s.RdbSize, s.ID, w.snaps[s.ID]), Detail: map[string]any{"where": ctx, "follower_declares": s, "snapshots_of_id": w.snaps[s.ID]}})
+	}
+	if m, ok := w.minLeft[s.ID]; ok && s.Left >= 0 && s.Right >= s.Left && s.Left < m {
+		out = append(out, finding{Sig: "declares-below-history", What: fmt.Sprintf(
+			"follower declares [%d,%d] valid under id %.8s although nothing of that id exists below offset %d", s.Left, s.Right, s.ID, m),
+			Detail: map[string]any{"where": ctx, "follower_declares": s}})
+	}
+	return out
 }
 
 // checkFollower verifies everything the follower's channel declares valid under its current id:
 // log range readable end to end, contiguous, byte == PRF(id, offset); offered snapshot complete and
 // == PRF(id, left, i); and (when the leader holds the same id) byte-identical to the leader's copy.
 // ids = every replication id used in the case (to tell whose bytes a mismatching run is).
-func checkFollower(fc, lc syncer.Channel, ids []string, rng *rand.Rand, ctx string, quiescent bool, st *checkStats) (chanState, []finding) {
+func checkFollower(fc, lc syncer.Channel, wd *world, rng *rand.Rand, ctx string, quiescent bool, st *checkStats) (chanState, []finding) {
 	var out []finding
 	s := stateOf(fc)
 	if s.ID == "" {
 		return s, nil
 	}
+	ids := wd.ids
+	stall := readStallTime
+	if !quiescent {
+		// the follower is working: only bytes actually served can be judged; refusals, short and
+		// stalled reads are what a cache in motion legitimately shows
+		stall = 400 * time.Millisecond
+		defer func() {
+			if now := stateOf(fc); now.ID != s.ID || now.RdbLeft != s.RdbLeft || now.RdbSize != s.RdbSize || now.Left != s.Left {
+				// the cache was re-labelled or reset while it was being read (the disk backend opens
+				// readers by offset only): what was read cannot be attributed to the sampled state
+				st.transientDropped += len(out)
+				out = nil
+			}
+		}()
+	}
+	out = append(out, wd.metaFindings(s, ctx)...)
 	cur := s.ID
 	key := aofKey(cur)
 	whose := func(data []byte, at int, off int64) string {
@@ -149,13 +223,13 @@ func checkFollower(fc, lc syncer.Channel, ids []string, rng *rand.Rand, ctx stri
 		// read the whole declared range; a reader that stops making progress although the next
 		// offset is covered by a stored segment is resumed at that offset (and counted): only the
 		// bytes served and the structure decide, never the clock
-		res := readAt(fc, cur, s.Left, n)
+		res := readAt(fc, cur, s.Left, n, stall)
 		for res.openErr == nil && res.isAof && int64(len(res.data)) < n {
 			p := s.Left + int64(len(res.data))
 			if probeGap(fc, s, p, map[string]any{}) != nil {
 				break
 			}
-			more := readAt(fc, cur, p, s.Right-p)
+			more := readAt(fc, cur, p, s.Right-p, stall)
 			if more.openErr != nil || !more.isAof || len(more.data) == 0 {
 				break
 			}
@@ -169,7 +243,7 @@ func checkFollower(fc, lc syncer.Channel, ids []string, rng *rand.Rand, ctx stri
 			d := base()
 			d["open_error"] = res.openErr.Error()
 			// declared valid yet refused: a refusal serves no wrong byte; probe the structure instead
-			if f := probeGap(fc, s, s.Left, d); f != nil {
+			if f := probeGap(fc, s, s.Left, d); f != nil && quiescent {
 				out = append(out, *f)
 			}
 		case !res.isAof:
@@ -204,7 +278,9 @@ func checkFollower(fc, lc syncer.Channel, ids []string, rng *rand.Rand, ctx stri
 					d["read_error"] = res.err.Error()
 				}
 				if f := probeGap(fc, s, p, d); f != nil {
-					out = append(out, *f)
+					if quiescent {
+						out = append(out, *f)
+					}
 				} else {
 					out = append(out, finding{Harness: true, Sig: "short-read", What: fmt.Sprintf(
 						"%s: read of declared range [%d,%d] ended at %d without a structural explanation (stalled=%v err=%v)", ctx, s.Left, s.Right, p, res.stalled, res.err), Detail: d})
@@ -221,11 +297,11 @@ func checkFollower(fc, lc syncer.Channel, ids []string, rng *rand.Rand, ctx stri
 					b = lr
 				}
 				if ll >= 0 && b > a {
-					lres := readAt(lc, cur, a, b-a)
+					lres := readAt(lc, cur, a, b-a, stall)
 					if lres.openErr == nil && lres.isAof && int64(len(lres.data)) == b-a {
 						st.leaderCompared += b - a
 						fo := int(a - s.Left)
-						for i := 0; i < int(b-a); i++ {
+						for i := 0; i < int(b-a) && !bytes.Equal(lres.data, res.data[fo:fo+int(b-a)]); i++ {
 							if lres.data[i] != res.data[fo+i] {
 								d := base()
 								d["first_bad_offset"] = a + int64(i)
@@ -253,7 +329,7 @@ func checkFollower(fc, lc syncer.Channel, ids []string, rng *rand.Rand, ctx stri
 				if m > 1500 {
 					m = 1500
 				}
-				sr := readAt(fc, cur, o, m)
+				sr := readAt(fc, cur, o, m, stall)
 				st.spotReads++
 				if sr.openErr != nil || !sr.isAof {
 					continue
@@ -278,7 +354,7 @@ func checkFollower(fc, lc syncer.Channel, ids []string, rng *rand.Rand, ctx stri
 
 	// an offered snapshot must be complete and the leader's
 	if s.RdbLeft >= 0 && s.RdbSize >= 0 {
-		res := readAt(fc, cur, s.RdbLeft-1, s.RdbSize)
+		res := readAt(fc, cur, s.RdbLeft-1, s.RdbSize, stall)
 		switch {
 		case res.openErr != nil:
 			st.refusedSnapshot++ // declared, but nothing is served: fail-safe
@@ -298,6 +374,13 @@ func checkFollower(fc, lc syncer.Channel, ids []string, rng *rand.Rand, ctx stri
 						d["bytes_belong_to_id"] = o
 					}
 				}
+				for _, x := range wd.snaps[cur] {
+					if x.Left != s.RdbLeft && matchesAt(res.data, i, rdbKey(cur, x.Left), int64(i), 32) {
+						sig, what = "snapshot-of-another-offset", fmt.Sprintf(
+							"follower offers a snapshot at offset %d of id %.8s whose bytes are the id's snapshot taken at offset %d", s.RdbLeft, cur, x.Left)
+						d["bytes_are_snapshot_of_offset"] = x.Left
+					}
+				}
 				out = append(out, finding{Sig: sig, What: what, Detail: d})
 			} else if int64(len(res.data)) < s.RdbSize {
 				d["snapshot_bytes_held"] = len(res.data)
@@ -305,8 +388,8 @@ func checkFollower(fc, lc syncer.Channel, ids []string, rng *rand.Rand, ctx stri
 				if res.err != nil {
 					d["read_error"] = res.err.Error()
 				}
-				if res.stalled && !quiescent {
-					out = append(out, finding{Harness: true, Sig: "snapshot-read-stalled", What: ctx + ": snapshot read stalled", Detail: d})
+				if !quiescent {
+					// a snapshot in transfer is legitimately shorter than announced
 				} else {
 					// (after Run() has returned nothing writes the snapshot any more: a reader that
 					// stops short of the declared size, by error or by waiting for bytes that cannot
